@@ -8,10 +8,7 @@ package cache
 import (
 	"context"
 	"fmt"
-	"hash/fnv"
-	"math"
 	"net"
-	"sort"
 	"strings"
 	"testing"
 	"time"
@@ -20,6 +17,7 @@ import (
 	"github.com/bluele/gcache"
 	"github.com/miekg/dns"
 	"pgregory.net/rapid"
+	"verif.local/harness/vdns"
 	"verif.local/harness/vstat"
 )
 
@@ -62,32 +60,6 @@ func vc04Msg(shape int, ttl uint32) (req, resp *dns.Msg, lowest uint32) {
 	return req, resp, lowest
 }
 
-// vc04Bound is the property's bound for a TTL served after age: original
-// minus time in cache, rounded, floor zero.
-func vc04Bound(lowest uint32, age time.Duration) (b uint32) {
-	left := math.Round(float64(lowest) - age.Seconds())
-	if left <= 0 {
-		return 0
-	}
-
-	return uint32(left)
-}
-
-func vc04MaxTTL(m *dns.Msg) (ttl uint32, n int) {
-	for _, rrs := range [][]dns.RR{m.Answer, m.Ns, m.Extra} {
-		for _, rr := range rrs {
-			if rr.Header().Rrtype == dns.TypeOPT {
-				continue
-			}
-
-			n++
-			ttl = max(ttl, rr.Header().Ttl)
-		}
-	}
-
-	return ttl, n
-}
-
 // vc04KnownLateLife is the identity of the late-life finding: an item whose
 // rounded remaining life is zero is served with its original TTL.
 const vc04KnownLateLife = "cache-late-life-ttl"
@@ -96,8 +68,8 @@ func vc04CheckAge(t interface{ Fatalf(string, ...any) }, st *vstat.Stats, m *Mid
 	req, resp, lowest := vc04Msg(shape, ttl)
 	item := cacheItem{msg: resp, when: time.Now().Add(-age)}
 	got := m.fromCacheItem(item, req)
-	bound := vc04Bound(lowest, age)
-	served, n := vc04MaxTTL(got)
+	bound := vdns.Bound(lowest, age)
+	served, n := vdns.MaxTTL(got)
 
 	cls := "early"
 	switch {
@@ -232,200 +204,18 @@ func (c *vc04FakeCache) advance(d time.Duration) {
 	}
 }
 
-// vc04Upstream is a pure function of (lower-cased name, qtype, qclass, DO).
+// vc04Upstream is the shared reference upstream (vdns.Answer): a pure function
+// of (lower-cased name, qtype, qclass, DO), counting calls per key.
 type vc04Upstream struct {
 	calls map[string]int
 	total int
 }
 
-type vc04Kind int
-
-const (
-	vkA vc04Kind = iota
-	vkAMixed
-	vkCNAME
-	vkNodataSOA
-	vkNodataNoSOA
-	vkNX
-	vkNXNoRR
-	vkServfail
-	vkServfailLong
-	vkRefused
-	vkTruncated
-	vkTTL0
-	vkWithOPT
-	vkWeird
-	vkKinds
-)
-
-var vc04KindNames = [...]string{"A", "A-mixed", "CNAME", "NODATA+SOA", "NODATA-noSOA", "NXDOMAIN+SOA", "NXDOMAIN-empty",
-	"SERVFAIL", "SERVFAIL-longTTL", "REFUSED", "truncated", "TTL0", "with-OPT", "weird-answer"}
-
-var vc04TTLs = [...]uint32{1, 2, 3, 5, 30, 45, 300}
-
-func vc04Hash(s string) uint32 {
-	h := fnv.New32a()
-	_, _ = h.Write([]byte(s))
-
-	return h.Sum32()
-}
-
-// vc04Name pool: the first label encodes the kind and the TTL so that every
-// kind is reachable by construction; the key parts are mixed into rdata so that
-// a wrong-key hit is visible in the records.
-func vc04QKey(q dns.Question, do bool) string {
-	return fmt.Sprintf("%s|%d|%d|%t", strings.ToLower(q.Name), q.Qtype, q.Qclass, do)
-}
-
-func vc04KindOf(name string) (k vc04Kind, ttl uint32) {
-	var ki, ti int
-	_, err := fmt.Sscanf(strings.ToLower(name), "k%dt%d.", &ki, &ti)
-	if err != nil {
-		panic(fmt.Errorf("bad name %q: %w", name, err))
-	}
-
-	return vc04Kind(ki), vc04TTLs[ti]
-}
-
-func vc04Answer(req *dns.Msg) (resp *dns.Msg) {
-	q := req.Question[0]
-	opt := req.IsEdns0()
-	do := opt != nil && opt.Do()
-	key := vc04QKey(q, do)
-	h := vc04Hash(key)
-	kind, ttl := vc04KindOf(q.Name)
-
-	resp = (&dns.Msg{}).SetReply(req)
-	resp.RecursionAvailable = true
-	resp.AuthenticatedData = do && h&1 == 1
-	hdr := func(t uint16, ttl uint32) dns.RR_Header {
-		return dns.RR_Header{Name: q.Name, Rrtype: t, Class: q.Qclass, Ttl: ttl}
-	}
-	ans := func(ttl uint32, salt byte) dns.RR {
-		switch q.Qtype {
-		case dns.TypeA:
-			return &dns.A{Hdr: hdr(dns.TypeA, ttl), A: net.IP{10, byte(h >> 8), byte(h), salt}}
-		case dns.TypeAAAA:
-			return &dns.AAAA{Hdr: hdr(dns.TypeAAAA, ttl), AAAA: net.IP{0x20, 1, 0xd, 0xb8, byte(h >> 24), byte(h >> 16), byte(h >> 8), byte(h), 0, 0, 0, 0, 0, 0, 0, salt}}
-		default:
-			return &dns.TXT{Hdr: hdr(q.Qtype, ttl), Txt: []string{key, string('a' + rune(salt))}}
-		}
-	}
-	soa := func(ttl, minttl uint32) dns.RR {
-		return &dns.SOA{Hdr: dns.RR_Header{Name: "test.", Rrtype: dns.TypeSOA, Class: dns.ClassINET, Ttl: ttl}, Ns: "ns.test.", Mbox: "m.test.", Serial: h, Minttl: minttl}
-	}
-
-	switch kind {
-	case vkA:
-		resp.Answer = []dns.RR{ans(ttl, 1)}
-	case vkAMixed:
-		resp.Answer = []dns.RR{ans(ttl+9, 1), ans(ttl, 2)}
-		resp.Ns = []dns.RR{&dns.NS{Hdr: dns.RR_Header{Name: "test.", Rrtype: dns.TypeNS, Class: dns.ClassINET, Ttl: ttl + 3}, Ns: "ns.test."}}
-		resp.Extra = []dns.RR{&dns.A{Hdr: dns.RR_Header{Name: "ns.test.", Rrtype: dns.TypeA, Class: dns.ClassINET, Ttl: ttl + 1}, A: net.IP{10, 9, 9, 9}}}
-	case vkCNAME:
-		resp.Answer = []dns.RR{
-			&dns.CNAME{Hdr: hdr(dns.TypeCNAME, ttl+5), Target: "target.test."},
-			func() dns.RR { r := ans(ttl, 3); r.Header().Name = "target.test."; return r }(),
-		}
-	case vkNodataSOA:
-		resp.Ns = []dns.RR{soa(ttl+20, ttl)}
-	case vkNodataNoSOA:
-		resp.Ns = []dns.RR{&dns.NS{Hdr: dns.RR_Header{Name: "test.", Rrtype: dns.TypeNS, Class: dns.ClassINET, Ttl: ttl}, Ns: "ns.test."}}
-	case vkNX:
-		resp.Rcode = dns.RcodeNameError
-		resp.Ns = []dns.RR{soa(ttl, ttl+20)}
-	case vkNXNoRR:
-		resp.Rcode = dns.RcodeNameError
-	case vkServfail:
-		resp.Rcode = dns.RcodeServerFailure
-	case vkServfailLong:
-		resp.Rcode = dns.RcodeServerFailure
-		resp.Ns = []dns.RR{soa(ttl+3600, ttl+3600)}
-	case vkRefused:
-		resp.Rcode = dns.RcodeRefused
-		resp.Answer = []dns.RR{ans(ttl, 1)}
-	case vkTruncated:
-		resp.Truncated = true
-		resp.Answer = []dns.RR{ans(ttl, 1)}
-	case vkTTL0:
-		resp.Answer = []dns.RR{ans(ttl, 1), ans(0, 2)}
-	case vkWithOPT:
-		resp.Answer = []dns.RR{ans(ttl, 1)}
-		if opt == nil {
-			resp.SetEdns0(1232, false)
-		}
-	case vkWeird:
-		// NOERROR whose answer section has neither the asked type nor a
-		// CNAME/SIG: documented as not cacheable.
-		resp.Answer = []dns.RR{&dns.MX{Hdr: hdr(dns.TypeMX, ttl), Mx: "mx.test.", Preference: 1}}
-	}
-
-	// A conforming upstream answers an EDNS query with an OPT record and copies
-	// the DO bit (RFC 6891, RFC 3225); the cache derives the stored key from the
-	// response, so this is a precondition every real caller respects.
-	if opt != nil {
-		resp.SetEdns0(1232, do)
-	}
-
-	return resp
-}
-
 func (u *vc04Upstream) ServeDNS(ctx context.Context, rw dnsserver.ResponseWriter, req *dns.Msg) (err error) {
-	q := req.Question[0]
-	opt := req.IsEdns0()
-	u.calls[vc04QKey(q, opt != nil && opt.Do())]++
+	u.calls[vdns.QKey(req.Question[0], vdns.IsDO(req))]++
 	u.total++
 
-	return rw.WriteMsg(ctx, req, vc04Answer(req))
-}
-
-// vc04Cacheable tells, from the statement ("only complete NOERROR/NODATA,
-// NXDOMAIN and short-lived SERVFAIL answers are cached at all"), whether a
-// kind may ever be served from cache, and for how long.
-func vc04Cacheable(kind vc04Kind, qt uint16, ttl uint32) (ok bool, life uint32) {
-	switch kind {
-	case vkA, vkAMixed, vkNodataSOA, vkNX, vkWithOPT:
-		return true, ttl
-	case vkCNAME:
-		return true, ttl
-	case vkServfail, vkServfailLong:
-		return true, 30
-	case vkWeird:
-		// If the asked type is MX the answer is an ordinary one.
-		return qt == dns.TypeMX, ttl
-	default:
-		return false, 0
-	}
-}
-
-type vc04RRKey struct {
-	Sec  int
-	Text string
-}
-
-// vc04Canon renders a message modulo TTLs and OPT (hop-by-hop).
-func vc04Canon(m *dns.Msg) (s string) {
-	var rrs []string
-	for i, sec := range [][]dns.RR{m.Answer, m.Ns, m.Extra} {
-		for _, rr := range sec {
-			if rr.Header().Rrtype == dns.TypeOPT {
-				continue
-			}
-
-			c := dns.Copy(rr)
-			c.Header().Ttl = 0
-			// Owner names compare case-insensitively (RFC 4343); the question
-			// section is compared byte-exact separately.
-			c.Header().Name = strings.ToLower(c.Header().Name)
-			rrs = append(rrs, fmt.Sprintf("%d:%s", i, c.String()))
-		}
-	}
-
-	sort.Strings(rrs)
-
-	return fmt.Sprintf("id=%d rcode=%d qr=%t aa=%t tc=%t rd=%t ra=%t ad=%t cd=%t op=%d q=%v rrs=%q",
-		m.Id, m.Rcode, m.Response, m.Authoritative, m.Truncated, m.RecursionDesired, m.RecursionAvailable,
-		m.AuthenticatedData, m.CheckingDisabled, m.Opcode, m.Question, rrs)
+	return rw.WriteMsg(ctx, req, vdns.Answer(req, "", false))
 }
 
 func vc04Exchange(t *rapid.T, h dnsserver.Handler, req *dns.Msg) (resp *dns.Msg) {
@@ -442,21 +232,6 @@ func vc04Exchange(t *rapid.T, h dnsserver.Handler, req *dns.Msg) (resp *dns.Msg)
 	}
 
 	return resp
-}
-
-func vc04MixCase(t *rapid.T, s string) string {
-	if !rapid.Bool().Draw(t, "mixcase") {
-		return s
-	}
-
-	b := []byte(s)
-	for i := range b {
-		if b[i] >= 'a' && b[i] <= 'z' && rapid.Bool().Draw(t, "up") {
-			b[i] -= 32
-		}
-	}
-
-	return string(b)
 }
 
 func TestVerifC04History(t *testing.T) {
@@ -479,20 +254,18 @@ func TestVerifC04History(t *testing.T) {
 		model := map[string]ent{}
 		var hist []string
 
-		nNames := rapid.IntRange(1, 4).Draw(t, "nNames")
-		type nm struct {
-			kind vc04Kind
-			ti   int
+		type vq struct {
+			name   string
+			qt, qc uint16
+			do     bool
 		}
-		names := make([]nm, nNames)
-		for i := range names {
-			names[i] = nm{kind: vc04Kind(rapid.IntRange(0, int(vkKinds)-1).Draw(t, "kind")), ti: rapid.IntRange(0, len(vc04TTLs)-1).Draw(t, "ttlIdx")}
-		}
+		var asked []vq
 
-		steps := rapid.IntRange(2, 14).Draw(t, "steps")
+		steps := rapid.IntRange(2, 16).Draw(t, "steps")
 		var lastLife uint32 = 1
 		for i := 0; i < steps; i++ {
-			if rapid.IntRange(0, 2).Draw(t, "op") == 0 {
+			op := rapid.IntRange(0, 5).Draw(t, "op")
+			if op == 0 {
 				life := time.Duration(lastLife) * time.Second
 				d := rapid.SampledFrom([]time.Duration{0, 400 * time.Millisecond, 600 * time.Millisecond, time.Second,
 					life - 600*time.Millisecond, life - 400*time.Millisecond, life, life + time.Second, 29 * time.Second, 31 * time.Second}).Draw(t, "delta")
@@ -506,11 +279,23 @@ func TestVerifC04History(t *testing.T) {
 				continue
 			}
 
-			n := names[rapid.IntRange(0, nNames-1).Draw(t, "name")]
-			qt := rapid.SampledFrom([]uint16{dns.TypeA, dns.TypeA, dns.TypeAAAA, dns.TypeTXT, dns.TypeHTTPS, dns.TypeMX}).Draw(t, "qt")
-			qc := rapid.SampledFrom([]uint16{dns.ClassINET, dns.ClassINET, dns.ClassINET, dns.ClassCHAOS}).Draw(t, "qc")
-			do := rapid.IntRange(0, 3).Draw(t, "do") == 0
-			name := vc04MixCase(t, fmt.Sprintf("k%dt%d.cache.test.", n.kind, n.ti))
+			var q vq
+			if op >= 3 && len(asked) > 0 {
+				q = asked[rapid.IntRange(0, len(asked)-1).Draw(t, "repeat")]
+			} else {
+				kind := vdns.Kind(rapid.IntRange(0, int(vdns.KKinds)-1).Draw(t, "kind"))
+				ti := rapid.IntRange(0, len(vdns.TTLs)-1).Draw(t, "ttlIdx")
+				q = vq{
+					name: vdns.Name(kind, ti, "cache.test."),
+					qt:   rapid.SampledFrom([]uint16{dns.TypeA, dns.TypeA, dns.TypeAAAA, dns.TypeTXT, dns.TypeHTTPS, dns.TypeMX}).Draw(t, "qt"),
+					qc:   rapid.SampledFrom([]uint16{dns.ClassINET, dns.ClassINET, dns.ClassINET, dns.ClassCHAOS}).Draw(t, "qc"),
+					do:   rapid.IntRange(0, 3).Draw(t, "do") == 0,
+				}
+				asked = append(asked, q)
+			}
+
+			qt, qc, do := q.qt, q.qc, q.do
+			name := vdns.MixCase(t, q.name)
 			req := &dns.Msg{}
 			req.Id = uint16(rapid.IntRange(0, 65535).Draw(t, "id"))
 			req.RecursionDesired = rapid.Bool().Draw(t, "rd")
@@ -521,9 +306,9 @@ func TestVerifC04History(t *testing.T) {
 				req.SetEdns0(uint16(rapid.SampledFrom([]int{512, 1232, 4096}).Draw(t, "udpsize")), do)
 			}
 
-			key := vc04QKey(req.Question[0], do)
-			kind, ttl := vc04KindOf(name)
-			cacheable, life := vc04Cacheable(kind, qt, ttl)
+			key := vdns.QKey(req.Question[0], do)
+			kind, ttl := vdns.KindOf(name)
+			cacheable, life := vdns.Cacheable(kind, qt, ttl)
 			lastLife = max(life, 1)
 
 			before := up.calls[key]
@@ -540,7 +325,7 @@ func TestVerifC04History(t *testing.T) {
 			fm := NewMiddleware(&MiddlewareConfig{Count: 10, MinTTL: minTTL, OverrideTTL: override})
 			fresh := vc04Exchange(t, fm.Wrap(&vc04Upstream{calls: map[string]int{}}), req.Copy())
 
-			if g, w := vc04Canon(resp), vc04Canon(fresh); g != w {
+			if g, w := vdns.Canon(resp, vdns.CanonOpts{}), vdns.Canon(fresh, vdns.CanonOpts{}); g != w {
 				t.Fatalf("history %v\nwarm  %s\nfresh %s", hist, g, w)
 			}
 
@@ -550,7 +335,7 @@ func TestVerifC04History(t *testing.T) {
 
 			e, inModel := model[key]
 			age := fc.now - e.stored
-			classes := []string{"kind-" + vc04KindNames[kind]}
+			classes := []string{"kind-" + vdns.KindNames[kind]}
 			nt := ""
 			if fromCache {
 				nt = fmt.Sprintf("%s@%d", key, age/(500*time.Millisecond))
@@ -564,7 +349,7 @@ func TestVerifC04History(t *testing.T) {
 				}
 
 				if !cacheable {
-					t.Fatalf("history %v: uncacheable answer kind %s served from cache", hist, vc04KindNames[kind])
+					t.Fatalf("history %v: uncacheable answer kind %s served from cache", hist, vdns.KindNames[kind])
 				}
 
 				if !inModel {
@@ -572,7 +357,7 @@ func TestVerifC04History(t *testing.T) {
 				}
 
 				effLife := life
-				if override && kind != vkServfail && kind != vkServfailLong {
+				if override && kind != vdns.KServfail && kind != vdns.KServfailLong {
 					effLife = max(life, uint32(minTTL/time.Second))
 				}
 
@@ -588,12 +373,12 @@ func TestVerifC04History(t *testing.T) {
 					classes = append(classes, "hit-late")
 				}
 
-				served, _ := vc04MaxTTL(resp)
-				bound := vc04Bound(effLife, age)
+				served, _ := vdns.MaxTTL(resp)
+				bound := vdns.Bound(effLife, age)
 				if override {
 					// The override raises answer TTLs only; the bound applies to
 					// the raised value.
-					bound = max(bound, vc04Bound(max(ttl+9, uint32(minTTL/time.Second)), age))
+					bound = max(bound, vdns.Bound(max(ttl+9, uint32(minTTL/time.Second)), age))
 				} else {
 					// per-record bound is not needed: the code serves one TTL for
 					// all records, and it must not exceed the lowest one's rest.
